@@ -68,6 +68,9 @@ func (p *propC10) Prepare(seed uint64, tier string) int {
 		r := NewRng(seed, "C10/pool", i)
 		ft := supportedFileTypes[r.Intn(len(supportedFileTypes))]
 		rs := genStream(r, StreamOpts{FT: ft, NData: r.Range(0, 30), Arch: 2, Unknown: true, Dev: true, Compressed: true, Unhosted: true, Hdr14: r.Bool(), HCRCZero: r.Chance(1, 4), Narrow: false})
+		if i%10 == 5 {
+			withJumbo(r, rs)
+		}
 		b := rs.Build()
 		if i%4 == 0 {
 			// engineer the frame end / data size onto 4096 multiples (+-1)
